@@ -27,6 +27,9 @@ func propC01(h History) error {
 	if !tr.Created {
 		return fmt.Errorf("NewReassembler failed: %v", tr.NewErr)
 	}
+	if tr.HeldChanged != "" {
+		return fmt.Errorf("%s", tr.HeldChanged)
+	}
 	bk := newBook(h)
 	delivered := map[int]int{} // message id -> op index of its delivery
 	nested := map[int]Op{}     // pushes made by the Stream from inside callbacks
